@@ -305,6 +305,13 @@ PROPERTIES["C08"] = dict(
              "included / excluded domain lists of 0..=2 symbolic hashes; union words present or absent independently",
              [("nd", "u8"), ("nn", "u8"), ("d0", "u64"), ("d1", "u64"), ("n0", "u64"), ("n1", "u64"), ("has_du", "bool"), ("has_nu", "bool"), ("du", "u64"), ("nu", "u64")],
              "c08_rule", asserts="both domain lists and both union words survive unchanged and unswapped", cuts=V0_CUT),
+        kern("C08.order.rule", "src/data_format/v0.rs", "h_v0.rs", "c08_order_rule", [Q, T], 60, 900, 8, ["derive(Serialize) for NetworkFilterV0SerializeFmt", "derive(Deserialize) for NetworkFilterV0DeserializeFmt"],
+             "field position i symbolic over the 13 fields", [("i", "usize")], "c08_order", asserts="the serialize-side and deserialize-side wire structs list the same fields in the same order (the msgpack encoding is positional)",
+             cuts=["the field lists are obtained from the derived impls through a recording serde back end written in the harness"]),
+        kern("C08.order.format", "src/data_format/v0.rs", "h_v0.rs", "c08_order_format", [Q, T], 60, 900, 8, ["derive(Serialize) for data_format::v0::SerializeFormat", "derive(Deserialize) for data_format::v0::DeserializeFormat", "SerializeFormat::from((&Blocker, &CosmeticFilterCache))"],
+             "section position i symbolic over the sections of the format", [("i", "usize")], "c08_order", asserts="the write side and the read side of the top-level format list the same sections in the same order",
+             stubs=["std::hash::RandomState::new -> fixed seed (empty maps only)", "std::time::Instant::now -> frozen clock"],
+             cuts=["the field lists are obtained from the derived impls through a recording serde back end written in the harness"]),
         kern("C08.pattern.simple", "src/data_format/v0.rs", "h_v0.rs", "c08_rule_pattern_simple", [Q, T], 20, 900, 8, V0_FUNCS,
              "pattern Simple(1 symbolic byte)", [("c0", "u8"), ("c1", "u8")], "c08_rule", asserts="the pattern part survives unchanged", cuts=V0_CUT),
         kern("C08.pattern.anyof", "src/data_format/v0.rs", "h_v0.rs", "c08_rule_pattern_anyof", [Q, T], 20, 900, 8, V0_FUNCS,
